@@ -209,6 +209,125 @@ fn sequences(e: u32, l: usize, compositions: bool) -> Vec<Vec<u32>> {
     v
 }
 
+// ---------------------------------------------------------------------------
+// the entry `get_next_cqe` hands out stays what it was while the caller holds it
+
+/// Ordinary safe user code: take a completion, let the kernel run once, then read it.
+/// Returns what was read through the held reference.
+fn take_enter_then_read(ring: &mut IoUring) -> Option<(u64, i32)> {
+    let fd = ring.fd;
+    let held = ring.get_next_cqe()?;
+    // flushes a completion parked on the overflow list into the ring — into whichever slot is free
+    let _ = io_uring_enter(fd, 0, 0, IoUringEnterFlags::IORING_ENTER_GETEVENTS);
+    Some((held.0.user_data, held.0.res))
+}
+
+fn held_json(entries: u32, flags: u32, extra: u32, take: u32) -> Value {
+    json!({"phase": "ringflags", "scenario": "held-entry", "op": "real-ring", "ring": entries, "flags": flags, "flags_name": flags_name(flags), "parked": extra, "taken_with_enter_in_between": take})
+}
+
+/// Completion ring full with `extra` >= 1 more completions parked (IORING_FEAT_NODROP); the first `take`
+/// completions are each taken with `take_enter_then_read`, the rest plainly.  Everything must come out
+/// exactly once, in submission order, and each held entry must read as the completion due at that point.
+pub fn held_case(entries: u32, flags: u32, extra: u32, take: u32, r: &mut Report, verbose: bool) {
+    r.eval();
+    r.nontrivial_unique();
+    let cj = held_json(entries, flags, extra, take);
+    set_case(&cj.to_string());
+    unsafe { libc::alarm(30) };
+    let done = (|| -> Result<(), (String, String)> {
+        let mut rg = make(entries, flags).map_err(|e| ("skip".to_string(), e))?;
+        let cq = crate::ops_raw::kernel_ring_entries(entries).map(|x| x.1).unwrap_or(2 * entries.next_power_of_two());
+        let total = cq + extra;
+        // inline-completing entries, nothing reaped in between
+        let mut sent = 0u32;
+        while sent < total {
+            let n = (total - sent).min(rg.kernel_entries);
+            for i in 0..n {
+                let Some(p) = rg.ring.get_next_sqe_slot() else { return Err(("slot-refused".into(), format!("no slot for entry {} of {total}", sent + i))) };
+                unsafe { p.write(nop(1000 + (sent + i) as u64)) };
+            }
+            rg.ring.flush_submission_queue();
+            let k = io_uring_enter(rg.ring.fd, n, 0, IoUringEnterFlags::empty()).map_err(|e| ("enter-failed".to_string(), format!("{e}")))?;
+            if k != n as usize {
+                return Err(("entries-lost".into(), format!("io_uring_enter(to_submit={n}) = {k} while filling the completion ring")));
+            }
+            sent += n;
+        }
+        let mut got: Vec<(u64, i32)> = Vec::new();
+        for i in 0..take.min(total) {
+            match take_enter_then_read(&mut rg.ring) {
+                Some(c) => {
+                    if verbose {
+                        println!("  taken #{i} with an io_uring_enter before the read: user_data {} res {}", c.0, c.1);
+                    }
+                    let due = 1000 + i as u64;
+                    if c.0 != due {
+                        return Err((
+                            "entry-changed-before-the-caller-read-it".into(),
+                            format!(
+                                "completion ring of {cq} entries full, {extra} more parked: get_next_cqe() handed out the completion due (user_data {due}); after io_uring_enter(GETEVENTS) the held reference reads user_data {} res {} — the slot was given back to the kernel before the caller read it",
+                                c.0, c.1
+                            ),
+                        ));
+                    }
+                    got.push(c);
+                }
+                None => return Err(("entries-lost".into(), format!("get_next_cqe() = None with {} of {total} completions still due", total - i))),
+            }
+        }
+        // the rest
+        let t = std::time::Instant::now();
+        while (got.len() as u32) < total && t.elapsed().as_millis() < 2000 {
+            match rg.ring.get_next_cqe() {
+                Some(c) => got.push((c.0.user_data, c.0.res)),
+                None => {
+                    let _ = io_uring_enter(rg.ring.fd, 0, 0, IoUringEnterFlags::IORING_ENTER_GETEVENTS);
+                }
+            }
+        }
+        let want: Vec<u64> = (0..total as u64).map(|i| 1000 + i).collect();
+        let have: Vec<u64> = got.iter().map(|c| c.0).collect();
+        if have != want {
+            let lost: Vec<&u64> = want.iter().filter(|u| !have.contains(u)).collect();
+            let twice: Vec<&u64> = want.iter().filter(|u| have.iter().filter(|h| h == u).count() > 1).collect();
+            let key = if !lost.is_empty() { "entries-lost" } else { "extra-completion" };
+            return Err((key.into(), format!("{total} completions due {want:?}, reaped {have:?}: never seen {lost:?}, seen twice {twice:?}")));
+        }
+        if let Some(c) = got.iter().find(|c| c.1 != 0) {
+            return Err(("result-differs".into(), format!("a NOP stamped {} completed with {}", c.0, c.1)));
+        }
+        Ok(())
+    })();
+    unsafe { libc::alarm(0) };
+    clear_case();
+    match done {
+        Ok(()) => r.outcome("held-entry:stable-and-everything-reaped-once"),
+        Err((k, d)) if k == "skip" => {
+            r.outcome("held-entry:set-up-refused(skipped)");
+            let _ = d;
+        }
+        Err((k, d)) => r.violation(&format!("C17:real-ring:{k}"), format!("ring of {entries} entries, flags {}: {d}", flags_name(flags)), cj),
+    }
+}
+
+pub fn held_cases(th: bool) -> Vec<(u32, u32, u32, u32)> {
+    let (s, c) = (P::IORING_SETUP_SQE128.bits(), P::IORING_SETUP_CQE32.bits());
+    let sizes: &[u32] = if th { &[1, 2, 3, 4, 8] } else { &[1, 2, 4] };
+    let mut v = Vec::new();
+    for &e in sizes {
+        for f in [0, c, s | c] {
+            let cq = 2 * e.next_power_of_two();
+            for extra in 1..=(if th { 3 } else { 2 }) {
+                for take in 1..=(cq + extra).min(if th { 6 } else { 3 }) {
+                    v.push((e, f, extra, take));
+                }
+            }
+        }
+    }
+    v
+}
+
 pub fn flag_sets() -> Vec<u32> {
     let (s, c, q) = (P::IORING_SETUP_SQE128.bits(), P::IORING_SETUP_CQE32.bits(), P::IORING_SETUP_SQPOLL.bits());
     vec![0, s, c, s | c, q, q | s, q | c, q | s | c]
@@ -281,6 +400,18 @@ pub fn run(args: &Args) -> Report {
             }));
         }
     }
+    {
+        let cases = held_cases(th);
+        planned += cases.len() as u64;
+        items.push(isolated("held-entry", move || {
+            let mut r = Report::new();
+            crate::ops::install_watchdog();
+            for (e, f, x, t) in cases {
+                held_case(e, f, x, t, &mut r, false);
+            }
+            r
+        }));
+    }
     let mut r = run_isolated(items, &args.out, "C17");
     r.rule = "every (ring size, set-up flags, start slot, sequence of batch lengths) is one case, generated once: the ring is brought to the start slot with single entries, then each batch of NOP entries \
               stamped with consecutive user_data is written through get_next_sqe_slot, flushed, entered and reaped on a ring made by setup_io_uring; non-trivial: every case hands at least one entry to the kernel"
@@ -303,6 +434,10 @@ pub fn run(args: &Args) -> Report {
 
 pub fn replay(v: &Value, r: &mut Report) {
     crate::ops::install_watchdog();
+    if v["scenario"].as_str() == Some("held-entry") {
+        held_case(v["ring"].as_u64().unwrap_or(1) as u32, v["flags"].as_u64().unwrap_or(0) as u32, v["parked"].as_u64().unwrap_or(1) as u32, v["taken_with_enter_in_between"].as_u64().unwrap_or(1) as u32, r, true);
+        return;
+    }
     let e = v["ring"].as_u64().unwrap_or(4) as u32;
     let f = v["flags"].as_u64().unwrap_or(0) as u32;
     let start = v["start_slot"].as_u64().unwrap_or(0) as u32;
